@@ -97,10 +97,20 @@ def v1Timedelta (std : Std) (o : JVal) : LRes := (asTimedelta std o).mapError v1
 
 def v1Enum (name : S) (members : List (S × Lit)) (o : JVal) : LRes := (asEnum name members o).mapError v1Wrap
 
-/-- `if v1 in fields: return v1` (membership by `==`/hash only; the *input* value is returned) -/
+/-- the JSON value has the Python type of the Literal member -/
+def jSameType : JVal → Lit → Bool
+  | .null, .none => true
+  | .bool _, .bool _ => true
+  | .int _, .int _ => true
+  | .float _, .float _ => true
+  | .str _, .str _ => true
+  | _, _ => false
+
+/-- `if (v1, type(v1)) in typed_fields: return v1` (since fix af98f53 members match by value *and* type; the *input* value
+is returned) -/
 def v1Literal (vs : List Lit) (o : JVal) : LRes :=
   if !o.hashable then perr
-  else if vs.any (fun l => jEqLit o l) then pure o.toPy else perr
+  else if vs.any (fun l => jEqLit o l && jSameType o l) then pure o.toPy else perr
 
 /-- `v1[k]` -/
 def jIndex (o : JVal) (k : Nat) : Option JVal :=
